@@ -10,7 +10,9 @@
    finally, return, throw; parameters with DEFAULT VALUE expressions (10.2.11 steps 19-28: parameter scope, separate variable
    environment for the body), the ARGUMENTS object (mapped in sloppy functions with simple parameter lists: arguments[i] and the
    i-th parameter are one location; unmapped otherwise; lexical in arrow functions), redeclarations (var over parameter, var
-   over function, several function declarations of one name); expressions: number literals, identifier reference,
+   over function, several function declarations of one name), for (let / const / var x of [list]) with a fresh binding per iteration,
+   direct eval code (EvalDeclarationInstantiation: sloppy var declarations land in the caller's variable environment at run time);
+   logical assignment (||= &&= ??=), && || ?? ?:, prefix / postfix ++ --; expressions: number literals, identifier reference,
    typeof identifier, =, +=, postfix ++, +, <, comma, calls, log(e); strict and sloppy code (assignment to an undeclared
    name, to a const, to the own name of a named function expression).
 
@@ -80,8 +82,9 @@ Absent == [s |-> "absent", v |-> Undef, m |-> "mut"]
 NoVars == [n \in Names |-> Absent]
 \* fenv: the environment of the nearest enclosing non-arrow function (it owns `arguments`); args / ps / nmap are meaningful in
 \* such an environment only: the argument values as passed, the parameter names, the number of MAPPED arguments
-Env(parent, vs, fenv) == [parent |-> parent, vars |-> vs, fenv |-> fenv, args |-> <<>>, alen |-> 0, ps |-> <<>>, nmap |-> 0]
-Store0 == [envs |-> <<Env(0, NoVars, 1)>>, fns |-> <<>>, log |-> <<>>, fuel |-> 400]    \* envs[1]: the global environment
+\* venv: the variable environment that sloppy direct eval code adds its var declarations to (the function's, or the global one)
+Env(parent, vs, fenv, venv) == [parent |-> parent, vars |-> vs, fenv |-> fenv, venv |-> venv, args |-> <<>>, alen |-> 0, ps |-> <<>>, nmap |-> 0]
+Store0 == [envs |-> <<Env(0, NoVars, 1, 1)>>, fns |-> <<>>, log |-> <<>>, fuel |-> 400]    \* envs[1]: the global environment
 
 Ok(st, v) == [st |-> st, c |-> [ty |-> "normal", v |-> v]]
 Thr(st, v) == [st |-> st, c |-> [ty |-> "throw", v |-> v]]
@@ -94,10 +97,13 @@ Abrupt(r) == r.c.ty # "normal"
 RECURSIVE Resolve(_, _, _)
 Resolve(st, env, x) == IF env = 0 THEN 0 ELSE IF st.envs[env].vars[x].s # "absent" THEN env ELSE Resolve(st, st.envs[env].parent, x)
 
-NewEnv(st, parent, vs) == [st EXCEPT !.envs = Append(@, Env(parent, vs, st.envs[parent].fenv))]
+NewEnv(st, parent, vs) == [st EXCEPT !.envs = Append(@, Env(parent, vs, st.envs[parent].fenv, st.envs[parent].venv))]
+\* the newest environment is a variable environment of its own (function body)
+AsVarEnv(st) == [st EXCEPT !.envs[Len(st.envs)].venv = Len(st.envs)]
 \* the environment of a non-arrow function call: it is its own fenv
 NewFEnv(st, parent, vs, args, ps, nmap) ==
-  [st EXCEPT !.envs = Append(@, [parent |-> parent, vars |-> vs, fenv |-> Len(st.envs) + 1, args |-> args, alen |-> Len(args), ps |-> ps, nmap |-> nmap])]
+  [st EXCEPT !.envs = Append(@, [parent |-> parent, vars |-> vs, fenv |-> Len(st.envs) + 1, venv |-> Len(st.envs) + 1, args |-> args,
+                                  alen |-> Len(args), ps |-> ps, nmap |-> nmap])]
 Top(st) == Len(st.envs)
 SetB(st, env, x, b) == [st EXCEPT !.envs[env].vars[x] = b]
 Init(v, m) == [s |-> "init", v |-> v, m |-> m]
@@ -122,6 +128,7 @@ VarNames(s) == CASE s.t = "var" -> {s.x}
                  [] s.t \in {"block", "if"} -> VarNamesL(s.k, IF s.t = "if" THEN 2 ELSE 1)
                  [] s.t = "for" -> (IF s.n = 1 THEN {s.x} ELSE {}) \cup VarNames(s.k[4])
                  [] s.t = "try" -> VarNamesL(s.k, 1)
+                 [] s.t = "forof" -> (IF s.n = 1 THEN {s.x} ELSE {}) \cup VarNames(s.k[2])
                  [] s.t = "switch" -> VarNamesL(s.k, 2)
                  [] s.t = "case" -> VarNamesL(s.k, 2)
                  [] OTHER -> {}
@@ -136,7 +143,7 @@ LexVars(l, base) == [n \in Names |-> IF \E i \in LexDecls(l) : l[i].x = n
 -----------------------------------------------------------------------------
 RECURSIVE EvalE(_, _, _, _), EvalS(_, _, _, _), EvalL(_, _, _, _, _), EvalArgs(_, _, _, _, _, _), CallFn(_, _, _),
           EvalBlock(_, _, _, _), ForLoop(_, _, _, _, _), HoistF(_, _, _, _, _), BindParams(_, _, _, _, _, _),
-          FindCase(_, _, _, _, _, _), RunCases(_, _, _, _, _)
+          FindCase(_, _, _, _, _, _), RunCases(_, _, _, _, _), ForOf(_, _, _, _, _, _)
 
 \* closures: [p: parameter names, body: statement list, env, kind: "arrow" | "func" | "named", name, strict]
 MkFn(st, e, env, strict) ==
@@ -163,6 +170,33 @@ EvalE(e, env, st, sm) ==
                               ELSE LET o == ToNum(old.c.v)
                                        p == PutRef(st, r, e.x, Num(IF o = NaNv THEN NaNv ELSE o + 1), sm)
                                    IN IF Abrupt(p) THEN p ELSE Ok(p.st, Num(o)))
+    \* 13.15.2 logical assignment: the right-hand side and the PutValue happen only if the left value does not short-circuit
+    [] e.t = "logassign" -> (LET r == Resolve(st, env, e.x)
+                                 old == GetRef(st, r, e.x)
+                             IN IF Abrupt(old) THEN old
+                                ELSE IF (e.op = "or" /\ Truthy(old.c.v)) \/ (e.op = "and" /\ ~Truthy(old.c.v)) \/ (e.op = "nullish" /\ old.c.v.t # "undef")
+                                     THEN Ok(st, old.c.v)
+                                ELSE LET rv == EvalE(e.k[1], env, st, sm) IN
+                                     IF Abrupt(rv) THEN rv ELSE PutRef(rv.st, r, e.x, rv.c.v, sm))
+    [] e.t = "incdec" -> (LET r == Resolve(st, env, e.x)             \* e.n: +1 / -1;  e.op: "pre" | "post"
+                              old == GetRef(st, r, e.x)
+                          IN IF Abrupt(old) THEN old
+                             ELSE LET o == ToNum(old.c.v)
+                                      nv == IF o = NaNv THEN NaNv ELSE o + e.n
+                                      p == PutRef(st, r, e.x, Num(nv), sm)
+                                  IN IF Abrupt(p) THEN p ELSE Ok(p.st, Num(IF e.op = "pre" THEN nv ELSE o)))
+    [] e.t \in {"and", "or", "nullish"} ->
+         (LET a == EvalE(e.k[1], env, st, sm) IN
+          IF Abrupt(a) THEN a
+          ELSE IF (e.t = "or" /\ Truthy(a.c.v)) \/ (e.t = "and" /\ ~Truthy(a.c.v)) \/ (e.t = "nullish" /\ a.c.v.t # "undef") THEN a
+          ELSE EvalE(e.k[2], env, a.st, sm))
+    [] e.t = "cond" -> (LET c == EvalE(e.k[1], env, st, sm) IN
+                        IF Abrupt(c) THEN c ELSE EvalE(IF Truthy(c.c.v) THEN e.k[2] ELSE e.k[3], env, c.st, sm))
+    [] e.t = "sub" -> (LET a == EvalE(e.k[1], env, st, sm) IN
+                       IF Abrupt(a) THEN a
+                       ELSE LET b == EvalE(e.k[2], env, a.st, sm) IN
+                            IF Abrupt(b) THEN b
+                            ELSE Ok(b.st, Num(IF ToNum(a.c.v) = NaNv \/ ToNum(b.c.v) = NaNv THEN NaNv ELSE ToNum(a.c.v) - ToNum(b.c.v))))
     [] e.t = "fn" -> (LET m == MkFn(st, e, env, sm) IN Ok(m.st, Fn(m.id)))
     [] e.t = "call" -> (LET f == EvalE(e.k[1], env, st, sm) IN
                         IF "calleeLate" \in Deviations /\ e.k[1].t = "ref" /\ Resolve(st, env, e.k[1].x) = 0
@@ -239,7 +273,7 @@ CallFn(st0, id, args) ==
                                    THEN (LET i == CHOOSE j \in 1..Len(cl.p) : cl.p[j] = n IN Init(IF i <= Len(args) THEN args[i] ELSE Undef, "mut"))
                                    ELSE IF n \in vnames THEN Init(Undef, "mut") ELSE Absent]
            nmap == IF cl.strict THEN 0 ELSE MinI(Len(cl.p), Len(args))      \* sloppy + simple parameters: mapped arguments object
-           st2 == IF arrow THEN NewEnv(st1, outer, LexVars(cl.body, pv)) ELSE NewFEnv(st1, outer, LexVars(cl.body, pv), args, cl.p, nmap)
+           st2 == IF arrow THEN AsVarEnv(NewEnv(st1, outer, LexVars(cl.body, pv))) ELSE NewFEnv(st1, outer, LexVars(cl.body, pv), args, cl.p, nmap)
            fenv == Top(st2)
            st3 == HoistF(cl.body, 1, fenv, st2, cl.strict)
        IN Finish(EvalL(cl.body, 1, fenv, st3, cl.strict))
@@ -251,7 +285,7 @@ CallFn(st0, id, args) ==
        IN IF Abrupt(bp) THEN bp
           ELSE LET vv == [n \in Names |-> IF n \in vnames
                                             THEN Init(IF IsParam(cl, n) THEN bp.st.envs[penv].vars[n].v ELSE Undef, "mut") ELSE Absent]
-                   stV == NewEnv(bp.st, penv, LexVars(cl.body, vv))
+                   stV == AsVarEnv(NewEnv(bp.st, penv, LexVars(cl.body, vv)))
                    venv == Top(stV)
                    st3 == HoistF(cl.body, 1, venv, stV, cl.strict)
                IN Finish(EvalL(cl.body, 1, venv, st3, cl.strict))
@@ -295,6 +329,19 @@ FindCase(k, i, dv, env, st, sm) ==
        IF Abrupt(t) THEN [r |-> t, idx |-> 0]
        ELSE IF StrictEq(t.c.v, dv) THEN [r |-> Ok(t.st, Undef), idx |-> i]
        ELSE FindCase(k, i + 1, dv, env, t.st, sm)
+ForOf(s, vals, i, env, st, sm) ==
+  IF i > Len(vals) THEN Ok(st, Undef)
+  ELSE IF st.fuel <= 0 THEN Thr(st, Err(7777))
+  ELSE LET lex == s.n # 1
+           st0 == [st EXCEPT !.fuel = @ - 1]
+           st1 == IF lex THEN NewEnv(st0, env, [NoVars EXCEPT ![s.x] = Init(vals[i], IF s.n = 2 THEN "const" ELSE "mut")]) ELSE st0
+           ienv == IF lex THEN Top(st1) ELSE env
+           p == IF lex THEN Ok(st1, Undef) ELSE PutRef(st1, Resolve(st1, env, s.x), s.x, vals[i], sm)
+       IN IF Abrupt(p) THEN p
+          ELSE LET b == EvalBlock(s.k[2].k, ienv, p.st, sm) IN
+               IF b.c.ty = "break" THEN Ok(b.st, Undef)
+               ELSE IF b.c.ty \in {"return", "throw"} THEN b
+               ELSE ForOf(s, vals, i + 1, env, b.st, sm)
 RunCases(k, i, env, st, sm) ==
   IF i > Len(k) THEN Ok(st, Undef)
   ELSE LET r == EvalL(SubSeq(k[i].k, 2, Len(k[i].k)), 1, env, st, sm) IN IF Abrupt(r) THEN r ELSE RunCases(k, i + 1, env, r.st, sm)
@@ -329,6 +376,25 @@ EvalS(s, env, st, sm) ==
                IN IF Abrupt(iv) THEN iv
                   ELSE LET st2 == CopyEnv(SetB(iv.st, loopEnv, s.x, Init(iv.c.v, "mut")), loopEnv)
                        IN ForLoop(s, Top(st2), st2, sm, TRUE))
+    \* 14.7.5.6 / .7: for (let|const|var x of [e1, ..., en]) body.  The list is evaluated with x in its temporal dead zone, every
+    \* iteration gets a fresh environment for x
+    [] s.t = "forof" ->
+         (LET lex == s.n # 1
+              st1 == IF lex THEN NewEnv(st, env, [NoVars EXCEPT ![s.x] = TDZ("mut")]) ELSE st
+              henv == IF lex THEN Top(st1) ELSE env
+              vs == EvalArgs(s.k[1].k, 1, henv, st1, sm, <<>>)
+          IN IF Abrupt(vs.r) THEN vs.r ELSE ForOf(s, vs.vals, 1, env, vs.r.st, sm))
+    \* 19.2.1.3 EvalDeclarationInstantiation for direct eval code: strict code has its own variable environment, sloppy code adds its
+    \* var declarations to the variable environment of the caller (existing bindings are kept); let / const are local to the eval code
+    [] s.t = "evalcode" ->
+         (LET vn == VarNamesL(s.k, 1)
+              stv == IF sm THEN st
+                     ELSE LET ve == st.envs[env].venv IN
+                          [st EXCEPT !.envs[ve].vars = [n \in Names |-> IF n \in vn /\ st.envs[ve].vars[n].s = "absent" THEN Init(Undef, "mut") ELSE @[n]]]
+              base == IF sm THEN [n \in Names |-> IF n \in vn THEN Init(Undef, "mut") ELSE Absent] ELSE NoVars
+              st1 == NewEnv(stv, env, LexVars(s.k, base))
+              r == EvalL(s.k, 1, Top(st1), st1, sm)
+          IN IF r.c.ty \in {"throw"} THEN r ELSE Ok(r.st, Undef))
     [] s.t = "break" -> Brk(st)
     [] s.t = "continue" -> Cont(st)
     \* 14.12.4: one block scope for the whole CaseBlock; the clause tests are evaluated in order until one is strictly equal
